@@ -25,7 +25,25 @@ def _bound(ctx, call, func, clsname):
     return q.bind_args(ctx, call, func, init) or {}
 
 
-@rule('C10.a', ['C10', 'C11', 'C16', 'C02', 'C06', 'C14'], floor={'*': 12, 'C02': 1, 'C06': 1, 'C14': 5})
+def _tag_semaphore_obligations(ctx, f, b):
+    ts = b.get('tag_semaphores')
+    want = {'IN_MEMORY_UPLOAD_TAG': ('utils.TaskSemaphore', 'max_in_memory_upload_chunks'),
+            'IN_MEMORY_DOWNLOAD_TAG': ('utils.SlidingWindowSemaphore', 'max_in_memory_download_chunks')}
+    got = {}
+    if isinstance(ts, ast.Dict):
+        for k, v in zip(ts.keys, ts.values):
+            got[norm(k)] = v
+    for tag, (cls, field) in want.items():
+        v = got.get(tag)
+        ok = isinstance(v, ast.Call)
+        if ok:
+            rr = ctx.r.resolve(v, f, _count=False)
+            exact = rr.recv and [c.qualname for c in rr.recv] == [cls]
+            ok = bool(exact) and len(v.args) + len(v.keywords) == 1 and q.self_alias_text(f, (v.args + [k.value for k in v.keywords])[0]) == f'self._config.{field}'
+        ctx.ob(f, f'{tag} <- {cls.split(".")[1]}(config.{field})', ok, f'found {short(v, 70) if v is not None else "nothing"}')
+
+
+@rule('C10.a', ['C10', 'C11', 'C16', 'C02', 'C06', 'C14', 'C12'], floor={'*': 12, 'C02': 1, 'C06': 1, 'C14': 5, 'C12': 2})
 def wiring_table(ctx):
     """Each limit is fed by its own TransferConfig field: request executor <-
     (max_request_queue_size, max_request_concurrency), submission executor <-
@@ -44,6 +62,13 @@ def wiring_table(ctx):
         mt = b.get('max_num_threads')
         ctx.ob(f, '_io_executor.max_num_threads <- literal 1', isinstance(mt, ast.Constant) and mt.value == 1,
                f'the IO executor must have exactly one thread (ordered writes, rename after all writes), found {norm(mt)}')
+        return
+    if ctx.prop == 'C12':
+        # for the semaphore property only: which semaphore class governs which tag (the download window must be the sliding one:
+        # a plain counter frees capacity on any release, however far ahead of the lowest unfinished part)
+        call = _ctor_assigned_to(ctx, f, '_request_executor')
+        ctx.need(call is not None, 'self._request_executor is no longer constructed in TransferManager.__init__')
+        _tag_semaphore_obligations(ctx, f, _bound(ctx, call, f, 'futures.BoundedExecutor'))
         return
     if ctx.prop == 'C14':
         # for the planning property only: the configuration object hands out the thresholds and sizes it was given
@@ -76,21 +101,7 @@ def wiring_table(ctx):
             ctx.ob(f, f'{attr}.max_num_threads <- literal 1', isinstance(mt, ast.Constant) and mt.value == 1,
                    f'the IO executor must have exactly one thread (ordered writes, rename after all writes), found {norm(mt)}')
         if attr == '_request_executor':
-            ts = b.get('tag_semaphores')
-            want = {'IN_MEMORY_UPLOAD_TAG': ('utils.TaskSemaphore', 'max_in_memory_upload_chunks'),
-                    'IN_MEMORY_DOWNLOAD_TAG': ('utils.SlidingWindowSemaphore', 'max_in_memory_download_chunks')}
-            got = {}
-            if isinstance(ts, ast.Dict):
-                for k, v in zip(ts.keys, ts.values):
-                    got[norm(k)] = v
-            for tag, (cls, field) in want.items():
-                v = got.get(tag)
-                ok = isinstance(v, ast.Call)
-                if ok:
-                    rr = ctx.r.resolve(v, f, _count=False)
-                    exact = rr.recv and [c.qualname for c in rr.recv] == [cls]
-                    ok = bool(exact) and len(v.args) + len(v.keywords) == 1 and q.self_alias_text(f, (v.args + [k.value for k in v.keywords])[0]) == f'self._config.{field}'
-                ctx.ob(f, f'{tag} <- {cls.split(".")[1]}(config.{field})', ok, f'found {short(v, 70) if v is not None else "nothing"}')
+            _tag_semaphore_obligations(ctx, f, b)
         else:
             ts = b.get('tag_semaphores')
             ctx.ob(f, f'{attr} has no tag semaphores', ts is None, 'only the request stage is governed by in-memory tags', trivial=True)
